@@ -42,10 +42,10 @@ SPEC = {
                    "PdModel/Lemmas/RuleStore.lean", "PdModel/Lemmas/RuleLoad.lean", "PdModel/Lemmas/RuleOverride.lean",
                    "PdModel/Lemmas/RuleSpec.lean"],
     "gen": {
-        "quick": {"args": ["-n", "300", "-len", "40"], "streams": 8},
-        "thorough": {"args": ["-n", "4000", "-len", "60"], "streams": 16},
+        "quick": {"args": ["-n", "300", "-len", "40", "-bulk", "2"], "streams": 8},
+        "thorough": {"args": ["-n", "4000", "-len", "60", "-bulk", "15"], "streams": 16},
     },
-    "search": {"args": ["-n", "1000", "-len", "50"], "streams": 8},
+    "search": {"args": ["-n", "1000", "-len", "50", "-bulk", "6"], "streams": 8},
     "nontrivial": nontrivial,
     "coverage_extra": coverage_extra,
     "rule": "history = reset (fresh storage, default rule) + 8-40 ops on the real RuleManager: SetRule / DeleteRule / "
@@ -56,7 +56,9 @@ SPEC = {
             "update in six with a storage failure at its 1st-4th write (then often retried), one in ten from the "
             "malformed stream (empty ids, bad role, count <= 0, end <= start, mismatching bundle group), every eighth "
             "history with storage corruption (rule under a foreign key, junk value, invalid stored rule, deleted key) "
-            "followed by restart; after every op all observables are reported (GetAllRules, GetRuleGroups, "
+            "followed by restart; per stream two bulk histories (15 in the thorough tier) that bring the number of persisted "
+            "rules to 99/100/101/199/200/201/~230 (the 100-key pages of LoadRangeByPrefix) by batches and single "
+            "SetRule calls over 60 extra rule ids and restart twice at each size; after every op all observables are reported (GetAllRules, GetRuleGroups, "
             "GetRulesByKey on 9 keys, GetRulesForApplyRegion and GetSplitKeys on 64 ranges, raw storage, a second "
             "manager loaded from a copy of the storage); non-trivial = >= 3 accepted updates, a rejected update and a "
             "storage failure; distinct = distinct op sequence",
